@@ -371,6 +371,107 @@ STD_BYTE_CLASSES = {
 }
 
 
+def byte_predicate_set(F, body, isws=None):
+    """Set of bytes for which a loop-free closure `|(_, &b)| ..` / `|&b| ..` / `|b| ..` over ONE byte returns true, by
+    evaluating its symbolic paths for each of the 256 values.  The byte is whatever place rooted at the closure's last
+    parameter the terms mention; calls are understood only for utils::is_whitespace and std's u8 class helpers.
+    None when a term is outside that vocabulary (the caller decides what that means)."""
+    if isws is None:
+        w = F.body("utils::is_whitespace")
+        isws = valueset(w) if w is not None else set()
+    param = body.argc
+
+    class Unknown(Exception):
+        pass
+
+    def ev(t, b):
+        t = strip_wrappers(t)
+        if t[0] == "c":
+            if isinstance(t[2], bool):
+                return t[2]
+            if isinstance(t[2], int):
+                return t[2]
+            if t[1] == "char":
+                return char_value(t[2])
+            raise Unknown
+        if t[0] in ("arg",) and t[1] == param:
+            return b
+        if t[0] == "pl" and root_of(t)[0] == "arg" and root_of(t)[1] == param and not any(isinstance(x, tuple) and x[0] == "f" and x[2] not in ("1", "0") for x in t[2]):
+            # (*_2.1): the item of an enumerate()/zip() pair; (*_2): the byte itself.  Field 0 of a pair is the index: not a byte.
+            if any(isinstance(x, tuple) and x[0] == "f" and x[2] == "0" for x in t[2]) and any(isinstance(x, tuple) and x[0] == "f" for x in t[2]):
+                fs = [x[2] for x in t[2] if isinstance(x, tuple) and x[0] == "f"]
+                if fs[-1] == "0":
+                    raise Unknown
+            return b
+        if t[0] == "un" and t[1] == "Not":
+            v = ev(t[2], b)
+            return (not v) if isinstance(v, bool) else Unknown
+        if t[0] == "bin":
+            x, y = ev(t[2], b), ev(t[3], b)
+            op = t[1]
+            if op == "Eq": return x == y
+            if op == "Ne": return x != y
+            if op == "Lt": return x < y
+            if op == "Le": return x <= y
+            if op == "Gt": return x > y
+            if op == "Ge": return x >= y
+            if op in ("BitOr", "Or"): return bool(x) or bool(y)
+            if op in ("BitAnd", "And"): return bool(x) and bool(y)
+            raise Unknown
+        if t[0] == "call" and isinstance(t[2], str) and t[3]:
+            x = ev(t[3][0], b)
+            if name_is(t[2], "utils::is_whitespace"):
+                return x in isws
+            std = {"is_ascii_whitespace": {9, 10, 12, 13, 32}, "is_ascii_digit": set(range(48, 58)), "is_ascii_alphabetic": set(range(65, 91)) | set(range(97, 123)),
+                   "is_ascii_alphanumeric": set(range(48, 58)) | set(range(65, 91)) | set(range(97, 123)), "is_ascii_control": set(range(0, 32)) | {127}, "is_ascii": set(range(128))}
+            for k, vs in std.items():
+                if name_is(t[2], k):
+                    return x in vs
+        raise Unknown
+
+    out = set()
+    try:
+        paths = sym.walk(body)
+        for b in range(256):
+            val = None
+            for p in paths:
+                feasible = True
+                for e in p:
+                    if e[0] != "switch":
+                        continue
+                    v = ev(e[2], b)
+                    if isinstance(v, bool):
+                        took_true = e[3] != 0
+                        if v != took_true:
+                            feasible = False
+                            break
+                    else:
+                        if isinstance(e[3], int) and not isinstance(e[3], bool):
+                            if v != e[3]:
+                                feasible = False
+                                break
+                        else:   # otherwise edge: none of the listed values
+                            if v in (e[4] or ()):
+                                feasible = False
+                                break
+                if not feasible:
+                    continue
+                r = ret_of(p)
+                if r is None:
+                    raise Unknown
+                val = ev(r, b)
+                break
+            if val is None or not isinstance(val, bool):
+                raise Unknown
+            if val:
+                out.add(b)
+    except Unknown:
+        return None
+    except Exception:
+        return None
+    return out
+
+
 def _std_class(user):
     def f(name):
         if user is not None:
